@@ -55,6 +55,9 @@ def structural_specs():
         ('dep2+cash', one(_c(mon=True, dep='const', dep2=True, moncode='CASH'))),
         ('trecb', one(_c(gov='TRECB', tax=0.25))),
         ('trecb+cap+ic', one(_c(gov='TRECB', cap=True, margin=0.1, ic=True))),
+        # non-default codes for markets and sectors (the constructors take the market names as arguments)
+        ('renamed', one(_c(margin=0.1, names={'LAB': 'WORK', 'GOOD': 'STUFF', 'HH': 'WRK', 'BUS': 'FIRM', 'GOV': 'STATE', 'TF': 'LEVY'}))),
+        ('renamed+cap+mon', one(_c(margin=0.1, cap=True, mon=True, names={'LAB': 'L', 'GOOD': 'GOODS', 'CAP': 'OWN'}))),
     ]
     fed = {'countries': [topo.base_country('XA', 'CUR'), topo.base_country('RB', 'CUR', region=True)],
            'ext': None, 'links': [['import', 'RB', 'XA'], ['gift', 'XA', 'RB', True, True]], 'xr': {}, 'horizon': 3}
